@@ -64,3 +64,4 @@ def run(ctx):
     m = importlib.util.module_from_spec(sp)
     sp.loader.exec_module(m)
     m.run(ctx)
+    ctx.families_leg("fmla")
